@@ -264,3 +264,66 @@ def coqchk(chk, module):
         ok = re.search(r"Axioms:\s*<none>", out) is not None
     chk.obligation("coqchk -o %s (axioms: none, no unsafe fixpoints / positivity / type-in-type)" % module, ok, out[-1500:])
     chk.extra["coqchk"] = out[-600:]
+
+
+# ------------------------------------------------------------------ the interpreter's own deviation
+# CPython 3.12.1 (the implementation interpreter) mis-compiles some functions with several PEP 709
+# inlined comprehensions: a name that is an iteration variable of one comprehension and a plain global
+# reference in a sibling comprehension of the same function raises UnboundLocalError.  The Python source
+# Hy emitted is correct.  Such a case is not a violation of the Hy property: it is re-judged by running
+# the very source Hy emitted under an independent interpreter without comprehension inlining.
+
+INDEP_PY = "/usr/bin/python3"
+INDEP_RUNNER = os.path.join(vlib.VERIF, "props", "indep_runner.py")
+DEVIATION = "cpython-3.12.1-comprehension-inlining-bug"
+DEVIATION_TRUST = ("tolerated deviation of the implementation interpreter from Python's semantics: CPython 3.12.1 raises "
+                   "UnboundLocalError in functions with several inlined comprehensions (PEP 709) that use one name as an "
+                   "iteration variable and as a global reference; only when the real run ends in UnboundLocalError, the "
+                   "Python source Hy emitted (must not mention hy besides `import hy`) is re-run under %s (< 3.12) and the case "
+                   "counts as conforming only if that run gives exactly the expected log, exception kind and names" % INDEP_PY)
+_indep_ok = [None]
+
+
+def indep_available():
+    if _indep_ok[0] is None:
+        try:
+            p = subprocess.run([INDEP_PY, "-c", "import sys; print(sys.version_info[:2] < (3, 12))"],
+                               capture_output=True, text=True, timeout=30)
+            _indep_ok[0] = p.returncode == 0 and p.stdout.strip() == "True"
+        except Exception:
+            _indep_ok[0] = False
+    return _indep_ok[0]
+
+
+def run_independent(src, names):
+    env = {"PATH": os.environ.get("PATH", "/usr/bin:/bin"), "PYTHONHASHSEED": "0", "PYTHONDONTWRITEBYTECODE": "1"}
+    try:
+        p = subprocess.run([INDEP_PY, "-I", INDEP_RUNNER], input=json.dumps({"src": src, "names": list(names)}),
+                           capture_output=True, text=True, timeout=120, env=env, cwd="/")
+        if p.returncode != 0:
+            return None
+        return json.loads(p.stdout)
+    except Exception:
+        return None
+
+
+def tolerate_interpreter_deviation(chk, r, names, conforms, program):
+    """r: the worker's result of the real run; conforms(result) -> bool judges a result against the reference.
+    True iff the real run ended in UnboundLocalError and the emitted Python behaves as expected elsewhere."""
+    import re
+    exc = r.get("exc") or ""
+    py = r.get("py")
+    if not exc.startswith("UnboundLocalError") or not py or not indep_available():
+        return False
+    src = "\n".join(l for l in py.splitlines() if l.strip() != "import hy")
+    if re.search(r"\bhy\b", src):
+        return False
+    res = run_independent(src, names)
+    if res is None or "compile_err" in res or not conforms(res):
+        return False
+    chk.count("tolerated:" + DEVIATION)
+    samples = chk.extra.setdefault("interpreter_deviation_samples", [])
+    if len(samples) < 3:
+        samples.append({"classified_as": DEVIATION, "program": program, "emitted_python": src[:1500],
+                        "real_interpreter": exc, "independent_interpreter": res.get("version")})
+    return True
